@@ -417,9 +417,9 @@ def ob_stack_guard(sess):
             if v.variant == 'Ok':
                 kinds.add('Ok')
                 g = v.fields[0]
-                prev = g.fields[0] if isinstance(g, Struct) else g
-                # the limit the code uses: the largest depth for which Ok is feasible + 1
-                viols = [('depth not incremented', d2 != depth + 1), ('guard does not remember the previous depth', prev != depth),
+                # how the guard remembers what to undo (previous depth, or a relative decrement) is not part of the property:
+                # only the effect of dropping it is checked below
+                viols = [('depth not incremented', d2 != depth + 1),
                          ('Ok at or beyond every configured MAX_RECURSION', depth >= max(maxes))]
                 # drop restores
                 mem2 = dict(m)
